@@ -213,4 +213,283 @@ CHECKS = {
                      "monitors",
         "design_ref": "DESIGN.md section 4, C09",
     },
+    "C05": {
+        "bin": "c05",
+        "level": "exploration",
+        "quick": {"shards": 12, "budget_s": 70, "min_evaluations": 3000},
+        "thorough": {"shards": 14, "budget_s": 900, "min_evaluations": 30000},
+        "rule": (
+            "evaluations = requests sent to the subject CA and judged: the "
+            "verdict (accepted/refused) must equal a predicate written from "
+            "the statement (own prefix arithmetic, own model of configured "
+            "ROAs/ASPAs/router keys/children; removals first; implicit max "
+            "length = prefix length; same authorisation with the same "
+            "comment is a duplicate, with another comment a comment change; "
+            "also against earlier entries of the same delta); after a "
+            "refusal the digest of CA info, configured ROAs/ASPAs/BGPsec, "
+            "all published files, the pending task list and the children "
+            "view must be unchanged and only the subject CA's version may "
+            "grow, by one; after an acceptance the configuration view must "
+            "equal the predicted one and every accepted ROA whose prefix one "
+            "class holds must be carried by an object. State classes: no "
+            "certificate yet, one class, two classes (overlapping, disjoint "
+            "and a prefix only the union holds), after an entitlement "
+            "shrink, during a key roll (pending/new/old key). Each world "
+            "runs a boundary script (every clause alone, accepted "
+            "counterparts, mixed good+bad requests) and then seeded random "
+            "requests: ROA deltas (implicit/explicit/invalid max length, "
+            "v4/v6, AS0, other-family twin, covering prefix, duplicates "
+            "inside a delta, removal+re-add, comment-only changes), ASPA "
+            "definition and provider updates, BGPsec updates with several "
+            "entries and corrupted CSRs, child add/update/remove. "
+            "distinct_nontrivial = distinct (state class, operation type, "
+            "set of violated clauses or 'none')."
+        ),
+        "assumptions": COMMON_ASSUMPTIONS + [
+            "requests enter at CaManager; JSON/HTTP parsing in front of it "
+            "is not exercised here (C16)",
+            "where the statement is silent no verdict is asserted: a "
+            "provider update that changes nothing but keeps an unbacked "
+            "definition, update of an unknown child, which of two "
+            "definitions for one customer in one request wins",
+            "CSR validity is judged with openssl, resource containment "
+            "with the harness' own integer arithmetic",
+        ],
+        "level_text": (
+            "Runtime monitoring, differential: the real command processing "
+            "runs on generated requests in five classes of CA state and "
+            "its accept/refuse decision is compared with a predicate "
+            "derived from the statement; refusals are checked to leave "
+            "configuration, repository and task queue untouched, "
+            "acceptances to be visible entirely."
+        ),
+        "level_note": (
+            "Trusted: rpki-rs ResourceSet::contains for comparing child "
+            "resource sets, openssl for CSR validity; the state digest is "
+            "the API-observable state, not raw storage."
+        ),
+        "technique": "runtime monitoring: differential accept/refuse "
+                     "oracle + untouched-state and full-visibility checks "
+                     "over seeded requests in constructed CA states",
+        "design_ref": "DESIGN.md section 3, C05",
+    },
+    "C10": {
+        "bin": "c10",
+        "level": "exploration",
+        "quick": {"shards": 12, "budget_s": 60, "min_evaluations": 5000},
+        "thorough": {"shards": 14, "budget_s": 900, "min_evaluations": 100000},
+        "rule": (
+            "evaluations = publication-server requests judged against the "
+            "sequential reference model (delta / add publisher / remove "
+            "publisher / signed list query; predicted verdict vs krill's, "
+            "then list reply + publisher details of EVERY publisher vs the "
+            "model; after every RRDP update and session reset the snapshot "
+            "on disk and the rsync tree vs the union of the model). A case "
+            "is distinct and non-trivial by the key (delta shape P#U#W#, "
+            "predicted verdict incl. reason, flavour and position "
+            "first/middle/last/only of the first unacceptable element, "
+            "whether a touched URI has staged changes / is visible in RRDP); "
+            "add/remove/list requests by (expected verdict, re-addition, "
+            "object count, staged). Workload: 3-5 publishers from a, ab, a-b, "
+            "A, a/b, a_b, aa, b, a/b/c, AB; all 27 three-step (thorough: 81 "
+            "four-step) publish/update/withdraw sequences on one URI between "
+            "two RRDP updates from absent and published starts; bad-element "
+            "matrix (9 kinds x sizes 1..6 x first/middle/last); random "
+            "histories with look-alike URIs, interleaved RRDP updates, "
+            "session resets, removal/re-addition, ~1% of requests through "
+            "the signed rfc8181 entry; RRDP interval 0/1 s, disk/memory "
+            "storage, with/without embedded TA."
+        ),
+        "assumptions": COMMON_ASSUMPTIONS + [
+            "requests are issued sequentially from one thread (concurrent "
+            "publishers are C18's subject); RRDP updates happen where the "
+            "history calls update_rrdp_if_needed",
+            "URIs with dot or empty segments cannot be expressed (rpki-rs "
+            "refuses them when a message is decoded) and are only counted; "
+            "module-name case variants are not generated",
+            "RRDP delta files are not checked here (C11); the snapshot and "
+            "the rsync tree are",
+        ],
+        "level_text": (
+            "Runtime monitoring: the real RepositoryManager runs generated "
+            "and hostile publication histories in-process; an independent "
+            "string-level model predicts every verdict and the complete "
+            "content of every publisher, compared after every request, and "
+            "the RRDP snapshot/rsync tree after every update."
+        ),
+        "level_note": (
+            "Trusted: rpki-rs XML/CMS parsing of replies and RRDP files; "
+            "sha256 from openssl; sequential requests only."
+        ),
+        "technique": "runtime monitoring: sequential reference model of the "
+                     "publication server + per-request comparison of every "
+                     "publisher and of the RRDP snapshot",
+        "design_ref": "DESIGN.md section 5, C10",
+    },
+    "C11": {
+        "bin": "c11",
+        "level": "fault_enumeration",
+        "quick": {"shards": 10, "budget_s": 60, "min_evaluations": 1500},
+        "thorough": {"shards": 15, "budget_s": 900, "min_evaluations": 20000},
+        "rule": (
+            "Publication histories (10-22 steps quick, 30-120 thorough; "
+            "publish/update/withdraw deltas of 8 B-12 kB objects from 2-3 "
+            "publishers, two publishes per update, updates with nothing "
+            "staged, session resets) under 5 retention configurations "
+            "(min_nr,max_nr,min_s,max_s,interval,archive). After every "
+            "update an RRDP client simulator that remembers the content it "
+            "had at EVERY serial it ever fetched re-reads notification, "
+            "snapshot and deltas from disk: hashes, snapshot = publication "
+            "state at its serial, every contiguous chain from every held "
+            "serial reaches the snapshot, serial +1, session only changes "
+            "on reset (then serial 1, no deltas), deltas contiguous, ending "
+            "at the serial and <= max_nr, rsync tree = snapshot. Fault "
+            "enumeration: for the last update of every history EVERY "
+            "key-value and file-system mutation of the update is a cut; at "
+            "each cut (a) the on-disk view is handed to the client "
+            "simulator, (b) crash realisation: restore the cut, restart, "
+            "publish and update once more - must succeed and be consistent, "
+            "nothing acknowledged lost, (c) failing-write realisation: the "
+            "n-th mutation returns an I/O error on a running instance, then "
+            "the same. evaluations = client checks + cut views + "
+            "continuations; distinct_nontrivial = distinct (retention, "
+            "#deltas offered, #serials held) views and distinct (retention, "
+            "cut label) cuts."
+        ),
+        "assumptions": COMMON_ASSUMPTIONS + [
+            "a crash loses everything after a mutation boundary; torn "
+            "writes inside one write(2)/rename and page-cache reordering "
+            "are not modelled",
+            "the maximum number of deltas is asserted only for "
+            "configurations with min_nr <= max_nr and "
+            "rrdp_delta_files_min_seconds = 0 (otherwise the settings "
+            "contradict each other)",
+            "size-based truncation (deltas never larger than the snapshot) "
+            "is exercised by the object sizes but not asserted separately",
+        ],
+        "level_text": (
+            "Runtime monitoring with complete cut enumeration per update: "
+            "the real RRDP/rsync writer runs under the mutation hook; a "
+            "client simulator with memory of all earlier serials judges "
+            "the files on disk after every update and at every cut, and "
+            "both realisations of every cut must be followed by a "
+            "successful, consistent update."
+        ),
+        "level_note": (
+            "Trusted: rpki-rs RRDP parsers; the harness' model of "
+            "publisher content (the harness is the only publisher); TA "
+            "objects are treated as constant base content."
+        ),
+        "technique": "runtime monitoring: RRDP client simulator + enumerated "
+                     "crash/failed-write cuts of the repository writer",
+        "design_ref": "DESIGN.md section 5, C11",
+    },
+    "C17": {
+        "bin": "c17",
+        "level": "exploration",
+        "quick": {"shards": 12, "budget_s": 45, "min_evaluations": 5000},
+        "thorough": {"shards": 14, "budget_s": 600, "min_evaluations": 100000},
+        "args": {"quick": {"as0-origin": 0}, "thorough": {"as0-origin": 0}},
+        "rule": (
+            "evaluations = generated (announcements, configured ROAs, held "
+            "resources, optional scope) quadruples whose analyse + suggest "
+            "reports were compared entry by entry with a brute-force RFC 6811 "
+            "validator (counters: announcement_entries_compared, "
+            "roa_entries_compared, suggestion_list_checks, "
+            "suggestion_removal_checks, suggestion_valid_preservation_checks). "
+            "Announcements are loaded through gzipped RISwhois dumps served "
+            "from a loopback HTTP listener into a fresh BgpAnalyser per case "
+            "(real download, gunzip, parser, tree builder). A case class is "
+            "distinct and non-trivial per announcement as (family, RFC 6811 "
+            "state, number of covering ROAs 0/1/2/3+, AS0 among the covering "
+            "ROAs, a ROA with the equal prefix exists, scope given) and per "
+            "ROA as (family, reported category, size of authorised set "
+            "0/1/2/3+, size of disallowed set 0/1/2/3+)."
+        ),
+        "assumptions": COMMON_ASSUMPTIONS + [
+            "announcements with origin AS0 are not generated: the statement "
+            "calls an announcement valid when a covering ROA has the same "
+            "origin, which for the (non-existent in BGP) origin 0 is what "
+            "krill reports; demanding 'never valid' there would be more "
+            "than the property states",
+            "held resources and scope are canonical resource sets; ROAs "
+            "whose held/scope membership depends on rpki-rs' family-blind "
+            "ResourceSet::contains_roa_address are kept out",
+            "with a scope, the configured ROAs are those contained in the "
+            "scope (analyse's documented meaning)",
+            "'suggestions never propose removing a ROA that validates an "
+            "announcement' is read as: after applying the suggestion every "
+            "previously valid announcement is still valid, and ROAs listed "
+            "as stale/redundant validate nothing",
+        ],
+        "level_text": (
+            "Runtime monitoring (differential): the real RISwhois loader, "
+            "prefix tree and BgpAnalyser::analyse/suggest run on seeded "
+            "collision-heavy inputs; every report entry, every per-ROA "
+            "authorises/disallows list and the effect of applying the "
+            "suggestion are compared with a brute-force RFC 6811 validator "
+            "working on its own integer prefix model."
+        ),
+        "level_note": (
+            "Trusted: Display/FromStr of krill's prefix, payload and "
+            "announcement types and rpki-rs ResourceSet parsing (texts are "
+            "the interface between krill and the oracle); the harness' "
+            "loopback HTTP server and stored-block gzip writer."
+        ),
+        "technique": "runtime monitoring: differential check of the BGP "
+                     "analyser against a brute-force RFC 6811 validator",
+        "design_ref": "DESIGN.md section 7, C17",
+    },
+    "C13": {
+        "bin": "c13",
+        "level": "exploration",
+        "quick": {"shards": 12, "budget_s": 85, "min_evaluations": 25000},
+        "thorough": {"shards": 12, "budget_s": 600, "min_evaluations": 300000},
+        "rule": (
+            "evaluations = requests judged (route x user x CA family x "
+            "transport) + login attempts. 111 routes written from "
+            "dispatch/*.rs; per pass 118-156 users: admin token, no/wrong/"
+            "Basic-only credentials, built-in roles, config globs, "
+            "all-but-P and login+P for each of the 22 permissions with and "
+            "without cas=[..] scoping, seeded random subsets and scopes, "
+            "Role::complex roles (per-CA grant over blanket grant), the "
+            "Unix-socket peer mapped to all-but-login; testbed mode on/off "
+            "alternating over shards and passes; TCP and Unix socket. A case "
+            "is distinct and non-trivial = a (route, required permission "
+            "set) pair for which the set inferred from the users served "
+            "equals the table and at least one role-bearing user was served "
+            "and one refused (plus POST /auth/login requires login)."
+        ),
+        "assumptions": [
+            "executions are produced by the harness' seeded generators; "
+            "nothing is claimed about routes, methods or path spellings not "
+            "in the 111-entry table",
+            "the real daemon (start_krill_daemon, feature verif-hooks on) "
+            "runs on a data directory populated in-process beforehand; "
+            "config-file auth provider only (OpenID Connect not exercised); "
+            "complex and built-in roles are installed programmatically",
+            "permitted requests are sent in an inert form (junk/broken "
+            "body), so 'permitted' means 'not answered 401/403', not "
+            "'operation succeeded'; refused requests are sent in their "
+            "effective form and 'no effect' means no change of the files "
+            "under data/ and repo/ (task queue, status, sessions excluded)",
+        ],
+        "level_text": (
+            "Runtime monitoring: the real daemon answers every table route "
+            "for every user of a generated role lattice; an independent "
+            "model of role evaluation says which answers must be 401/403, "
+            "refused requests must leave stored state unchanged, listings "
+            "must show exactly the readable CAs, and the set of users "
+            "served must identify the table's permission set."
+        ),
+        "level_note": (
+            "Trusted: the hand-written route table as golden reference "
+            "(cross-checked once against the tree), the harness' HTTP "
+            "client, file-level state digest."
+        ),
+        "technique": "runtime monitoring: real daemon + route table x role "
+                     "lattice, status/effect/listing oracle, permission-set "
+                     "inference",
+        "design_ref": "DESIGN.md section 6, C13",
+    },
 }
